@@ -339,12 +339,22 @@ pub fn execute(prog: &Prog, frag: &Frag, jitter: Option<Rng>, hr: Rng, res: &mut
 /// transport accepted, then per-channel comparison with what was issued.
 pub fn check_stream(out: &RunOut, frame_max: u32, res: &mut CaseResult) {
     let bytes = out.h.out_bytes();
-    let sp = wire::parse_client_stream(&bytes);
-    res.obs("bytes_checked", bytes.len() as u64);
-    res.obs("frames_checked", sp.frames.len() as u64);
     let (writes, wbs) = out.h.peek(|st| (st.writes.len(), st.wouldblocks));
     res.obs("transport_writes", writes as u64);
     res.obs("would_blocks", wbs as u64);
+    check_bytes(&bytes, &out.expected, out.all_closed_ok, frame_max, res);
+}
+
+/// The oracle proper, over any recording of what the peer end received.
+pub fn check_bytes(bytes: &[u8], expected: &BTreeMap<u16, Vec<Item>>, all_closed_ok: bool, frame_max: u32, res: &mut CaseResult) {
+    struct O<'a> {
+        expected: &'a BTreeMap<u16, Vec<Item>>,
+        all_closed_ok: bool,
+    }
+    let out = O { expected, all_closed_ok };
+    let sp = wire::parse_client_stream(bytes);
+    res.obs("bytes_checked", bytes.len() as u64);
+    res.obs("frames_checked", sp.frames.len() as u64);
     if !sp.header_ok {
         res.violate("bad_protocol_header", format!("{:?}", sp.error));
         return;
@@ -434,6 +444,117 @@ pub fn check_stream(out: &RunOut, frame_max: u32, res: &mut CaseResult) {
         }
         res.obs("channel_sequences_compared", 1);
     }
+}
+
+/// The same kind of program over a real loopback TCP socket whose peer reads slowly
+/// (real short writes and would-blocks from the kernel): fidelity cross-check of the mock.
+pub fn execute_tcp(prog: &Prog, r: &mut Rng, slow: bool, res: &mut CaseResult) {
+    use crate::tcp::TcpBroker;
+    let mut reflex = Reflex::default();
+    reflex.tune = (2047, prog.frame_max, 0);
+    let broker = TcpBroker::start(reflex);
+    let (chunk, delay_us, pauses) = if slow { (*r.pick(&[7usize, 64, 512, 65536]), r.range(0, 200), r.usize(0, 3)) } else { (*r.pick(&[4096usize, 65536]), r.range(0, 20), r.usize(0, 2)) };
+    broker.with(|s| {
+        s.read_chunk = chunk;
+        s.read_delay = Duration::from_micros(delay_us);
+    });
+    let url = format!("amqp://127.0.0.1:{}?heartbeat=0", broker.port);
+    let open = run::spawn("open", move || Connection::insecure_open(&url));
+    let mut conn = match open.join(W) {
+        J::Done(Ok(c)) => c,
+        J::Done(Err(e)) => {
+            res.violate("open_failed", format!("tcp handshake failed: {}", ek(&e)));
+            return;
+        }
+        _ => {
+            res.violate("no_progress_handshake", "tcp handshake did not finish".to_string());
+            return;
+        }
+    };
+    let mut expected: BTreeMap<u16, Vec<Item>> = BTreeMap::new();
+    let mut tasks = Vec::new();
+    for (ti, t) in prog.threads.iter().enumerate() {
+        let mut chans = Vec::new();
+        for ops_ in t {
+            match conn.open_channel(None) {
+                Ok(ch) => {
+                    expected.entry(ch.channel_id()).or_default().push(m("Channel.Open", ""));
+                    chans.push((ch, ops_.clone()));
+                }
+                Err(e) => {
+                    res.violate("op_failed", format!("open_channel: {}", ek(&e)));
+                    return;
+                }
+            }
+        }
+        tasks.push(run::spawn(&format!("w{}", ti), move || {
+            let mut issued: Vec<(u16, Vec<Item>)> = Vec::new();
+            let mut errs = Vec::new();
+            for (ch, ops_) in &chans {
+                for op in ops_ {
+                    issued.push((ch.channel_id(), ops::expect_items(op)));
+                    if let Err(e) = ops::exec(ch, op) {
+                        errs.push(format!("ch{} {:?}: {}", ch.channel_id(), op, ek(&e)));
+                    }
+                }
+            }
+            for (ch, _) in chans {
+                let id = ch.channel_id();
+                issued.push((id, vec![m("Channel.Close", "")]));
+                if let Err(e) = ch.close() {
+                    errs.push(format!("ch{} close: {}", id, ek(&e)));
+                }
+            }
+            (issued, errs)
+        }));
+    }
+    // the peer stops reading altogether a few times, so the kernel buffers fill up
+    for _ in 0..pauses {
+        std::thread::sleep(Duration::from_millis(r.range(1, 15)));
+        broker.with(|s| s.pause_reads = true);
+        std::thread::sleep(Duration::from_millis(r.range(5, 40)));
+        broker.with(|s| s.pause_reads = false);
+    }
+    let mut all_ok = true;
+    for task in &tasks {
+        match task.join(W * 3) {
+            J::Done((issued, errs)) => {
+                for (id, items) in issued {
+                    expected.entry(id).or_default().extend(items);
+                }
+                for e in errs {
+                    res.violate("op_failed", e);
+                    all_ok = false;
+                }
+            }
+            _ => {
+                res.violate("no_progress", format!("tcp worker {} did not finish", task.name));
+                std::mem::forget(conn);
+                return;
+            }
+        }
+    }
+    let close = run::spawn("close", move || conn.close());
+    match close.join(W * 3) {
+        J::Done(Ok(())) => {}
+        J::Done(Err(e)) => {
+            res.violate("op_failed", format!("Connection::close: {}", ek(&e)));
+            all_ok = false;
+        }
+        _ => {
+            res.violate("no_progress", "tcp Connection::close still blocked".to_string());
+            return;
+        }
+    }
+    // the broker thread may still be reading the tail
+    broker.wait(W, |s| s.reflex.got_conn_close || s.closed);
+    let bytes = broker.with(|s| s.out.clone());
+    res.obs("tcp_sessions", 1);
+    check_bytes(&bytes, &expected, all_ok, prog.frame_max, res);
+    for p in run::io_panics(&run::take_panics()) {
+        res.violate("io_thread_panic", format!("{} at {}", p.msg, p.loc));
+    }
+    broker.shutdown();
 }
 
 /// The fixed reference session used for would-block-at-every-offset runs.
@@ -553,6 +674,29 @@ pub fn run(rc: &mut RunCtx) {
                 Rng::new(3),
                 true,
             );
+        }
+    }
+    // (3b) loopback TCP with a slow / pausing reader
+    let ntcp = rc.n(8, 200);
+    for i in 0..ntcp {
+        let id = format!("tcp:{}", i);
+        if rc.mine(&id) {
+            rc.begin(&id);
+            let mut res = CaseResult::new(id);
+            let mut r = Rng::for_case(seed, 1, 50_000 + i);
+            let slow = !rc.quick() && i % 2 == 0;
+            let mut prog = gen_prog(&mut r, if rc.quick() { 2 } else { 4 }, if rc.quick() { 8 } else { 20 });
+            // 4096-byte frames keep 7-byte reads affordable
+            if slow {
+                prog.frame_max = 4096;
+            }
+            execute_tcp(&prog, &mut r, slow, &mut res);
+            res.nontrivial = res.obs.get("frames_checked").copied().unwrap_or(0) >= 5 || res.is_violation();
+            res.sig ^= 0x7c9;
+            if i % 16 == 0 {
+                res.sample = Some(json!({"transport": "loopback TCP, slow reader", "threads": prog.threads.len(), "frame_max": prog.frame_max}));
+            }
+            rc.end(res);
         }
     }
     // (4) random programs x random fragmentation
